@@ -11,11 +11,14 @@ use crate::sut::{LangCfg, LangId, LibOutcome, SrcFile, ALL_LANGS};
 use serde_json::json;
 
 /// (field ident, needs r#) — keywords of Swift and Python that are legal Rust field names
-const KW_FIELDS: [(&str, bool); 34] = [
+const KW_FIELDS: [(&str, bool); 50] = [
     ("default", false), ("class", false), ("func", false), ("import", false), ("is", false), ("var", false), ("public", false), ("private", false), ("init", false), ("internal", false),
     ("case", false), ("guard", false), ("defer", false), ("repeat", false), ("switch", false), ("operator", false), ("protocol", false), ("extension", false), ("nil", false), ("catch", false),
     ("from", false), ("global", false), ("lambda", false), ("pass", false), ("with", false), ("del", false), ("def", false), ("not", false), ("and", false), ("or", false),
     ("in", true), ("for", true), ("let", true), ("where", true),
+    // names that only become a keyword after the case conversion a backend applies to field names
+    ("for_", false), ("in_", false), ("as_", false), ("while_", false), ("try_", false), ("return_", false), ("class_", false), ("from_", false),
+    ("_in", false), ("_for", false), ("_import", false), ("Class", false), ("Import", false), ("Default", false), ("is_", false), ("_is", false),
 ];
 const KW_VARIANTS: [&str; 24] = ["Default", "Public", "Internal", "Static", "Import", "Return", "In", "Is", "Case", "Class", "Func", "Let", "Var", "Init", "Private", "Where", "While", "Switch", "Guard", "Defer", "Repeat", "Throw", "Catch", "Nil"];
 
